@@ -201,4 +201,10 @@ M = [('r3_revert_D3_eventmonitor_port',
   [('            if field_path and field_names.count(field_name) == 1:\n',
     '            if field_path and field_names.count(field_name) >= 1:\n')],
   None),
+ # 441eb76 fix: csr.reg: leave builder scopes outside of the assert statement
+ ('r12_revert_D11_scope_pop_in_assert',
+  'amaranth_soc/csr/reg.py',
+  [('            scope = self._scope_stack.pop()\n            assert scope == name\n',
+    '            assert self._scope_stack.pop() == name\n')],
+  None),
 ]
